@@ -150,7 +150,7 @@ def scenarios(mlr):
     add("csv-schema-change-last", ["--ocsv", "put", "NR == 20 {unset $a; $z = 1}", "in.dkvp"], {"in.dkvp": recs})
     add("tsv-schema-change", ["--otsv", "put", "NR == 5 {unset $a; $z = 1}", "in.dkvp"], {"in.dkvp": recs})
     add("csv-schema-change-tee", ["--ocsv", "put", "-q", "NR == 5 {unset $a; $z = 1} tee > \"out.csv\", $*", "in.dkvp"], {"in.dkvp": recs})
-    add("csv-schema-change-split", ["--ocsv", "put", "NR == 5 {unset $a; $z = 1}", "then", "split", "-n", "1", "in.dkvp"], {"in.dkvp": recs})
+    add("csv-schema-change-split", ["--ocsv", "put", "NR == 5 {unset $a; $z = 1}", "then", "split", "-n", "100", "in.dkvp"], {"in.dkvp": recs})      # (all 20 records go to one split file)
 
     # --- stdout that cannot be written
     add("stdout-devfull-small", None, {"in.dkvp": recs}, shell="%s cat in.dkvp > /dev/full" % mlr)
